@@ -1438,6 +1438,9 @@
 			Some(("m", l("run"), None, vec![ps(0, None, l("p_1"), None)])),
 			Some(("<init>", lit("<init>"), None, vec![ps(1, None, U, None)])),
 			Some(("m", U, None, vec![ps(0, None, l("p_1"), None)])),
+			// a method that is kept because of its comment still loses its placeholder parameters (added after seed C10-b)
+			Some(("m", l("m_1"), Some("c"), vec![ps(0, None, l("p_1"), None)])),
+			Some(("m", l("run"), Some("c"), vec![ps(0, None, l("p_1"), None), ps(1, None, l("arg"), None)])),
 		];
 		for n in [l("C_1"), l("net/minecraft/unmapped/C_2"), l("p/C_3"), l("Real"), U] { for c in [None, Some("c")] {
 			for f in [None, Some((l("f_1"), None)), Some((l("g"), None)), Some((l("f_1"), Some("c"))), Some((l("xf_1"), None)), Some((U, None))] {
